@@ -4,6 +4,7 @@ import (
 	"fmt"
 	"go/token"
 	"go/types"
+	"os"
 	"strings"
 
 	"golang.org/x/tools/go/ssa"
@@ -22,6 +23,7 @@ type taintCtx struct {
 	done       map[string]bool
 	sanitizers map[*ssa.Function]string // recognised sanitizer -> description
 	rejected   map[*ssa.Function]string // string->string helpers that are NOT recognised
+	fieldBusy  map[*types.Var]bool
 }
 
 type taintJob struct {
@@ -200,17 +202,29 @@ func (t *taintCtx) fieldTainted(f *types.Var) bool {
 	if _, isStr := f.Type().Underlying().(*types.Basic); !isStr {
 		return true
 	}
-	n := 0
-	for _, fs := range t.c.StoresTo(f) {
-		n++
-		if _, ok := fs.St.Val.(*ssa.Const); !ok {
-			return true
-		}
-	}
 	if f.Exported() {
 		return true // the caller can set it
 	}
-	return n == 0 && false
+	if t.fieldBusy == nil {
+		t.fieldBusy = map[*types.Var]bool{}
+	}
+	if t.fieldBusy[f] {
+		return false // cycle: least fixpoint
+	}
+	t.fieldBusy[f] = true
+	defer delete(t.fieldBusy, f)
+	for _, fs := range t.c.StoresTo(f) {
+		if _, ok := fs.St.Val.(*ssa.Const); ok {
+			continue
+		}
+		// a copy of another field that is itself only ever given constants (the wrapper's separator handed on to a
+		// per-render helper struct)
+		if f2, _ := loadedField(unwrap(fs.St.Val, true)); f2 != nil && !t.fieldTainted(f2) {
+			continue
+		}
+		return true
+	}
+	return false
 }
 
 func (t *taintCtx) callTainted(fn *ssa.Function, call *ssa.Call, mask string) bool {
@@ -313,6 +327,9 @@ func (t *taintCtx) sanitizerShape(f *ssa.Function) string {
 	}
 	if desc == "" {
 		t.rejected[f] = "string->string helper whose body is not a recognised quoter/escaper"
+	}
+	if os.Getenv("TABDBG") == "quoter" {
+		fmt.Fprintf(os.Stderr, "sanitizerShape %s -> %q\n", f.Name(), desc)
 	}
 	return desc
 }
